@@ -111,18 +111,22 @@ impl Property for C14 {
                     a.bits.0[i] = false;
                 }
             }
+            // random cases: up to 1300 bits with decimal, beyond that without
+            let no_dec = a.len() > 1300;
             // decimal on very long vectors is slow in bva: above 400 bits only the minimal
             // specification set is used (width == usize::MAX selects it)
             let digits = (a.bits.significant().max(1) + 3) / 4;
-            let width = if a.len() > 400 { usize::MAX } else { [0, digits.saturating_sub(1), digits, digits + 1, digits + 3, 50][wsel] };
+            let width = if no_dec { usize::MAX - 1 } else if a.len() > 400 { usize::MAX } else { [0, digits.saturating_sub(1), digits, digits + 1, digits + 3, 50][wsel] };
             C14Case { a, width }
         }).boxed()
     }
     fn exhaustive_subspaces(&self, tier: Tier) -> Vec<String> {
         vec![
             format!("all values for n<={} on 8 representative types x width 0 and digits+3", tier.pick(10, 14)),
-            "values 0, 2^k, 2^k-1 for every k<=min(capacity,320) at full length on all 19 types".into(),
+            "values 0, 2^k, 2^k-1 for every k<=min(capacity,320) at full length on all 20 types".into(),
+            "every length 0..=capacity of every fixed type with the values 2^len-1 and a dense pattern".into(),
             "decimal/binary/octal/hex of 2^k-1 and 2^(k-1) as k-bit Bvd and Bv for every k in 401..=1300".into(),
+            "binary/octal/hex of 2^k-1, 2^(k-1) and a dense value as k-bit Bvd and Bv for k = 1301..8300 step 13 and within 3 of 2048, 4096, 4160, 4224, 8192".into(),
         ]
     }
     fn enumerate(&self, tier: Tier, sh: &mut Shard, f: &mut dyn FnMut(C14Case) -> bool) {
@@ -171,6 +175,43 @@ impl Property for C14 {
                 }
             }
         }
+        // every LENGTH of every fixed type (the sweep further down varies the value at full length)
+        for t in FIXED_TIDS {
+            let c = fixed_cap(t).unwrap();
+            for len in 0..=c {
+                if !sh.mine() {
+                    continue;
+                }
+                for a in [Bits::ones(len), realize_val(&ValPat::Dense(vec![0x9E37_79B9_7F4A_7C15, 0xD1B5_4A32_D192_ED03, 0x0123_4567_89AB_CDEF]), len, 64)] {
+                    let digits = (a.significant().max(1) + 3) / 4;
+                    let width = if len > 400 { usize::MAX - 1 } else if len > 128 { digits + 2 } else { 0 };
+                    if !f(C14Case { a: Operand::canon(t, a), width }) {
+                        return;
+                    }
+                }
+            }
+        }
+        // binary / octal / hex only (linear cost) far beyond the decimal sweep
+        for t in [TID_D, TID_A] {
+            let mut ks: Vec<usize> = (1301..=8300usize).step_by(13).collect();
+            for c in [2048usize, 4096, 4160, 4224, 8192] {
+                ks.extend((c - 3)..=(c + 3));
+            }
+            ks.sort();
+            ks.dedup();
+            for kk in ks {
+                if !sh.mine() {
+                    continue;
+                }
+                let mut hot = Bits::zeros(kk);
+                hot.0[kk - 1] = true;
+                for a in [Bits::ones(kk), hot, realize_val(&ValPat::Dense(vec![0x9E37_79B9_7F4A_7C15, 0xD1B5_4A32_D192_ED03, 0x0123_4567_89AB_CDEF]), kk, 64)] {
+                    if !f(C14Case { a: Operand::canon(t, a), width: usize::MAX - 1 }) {
+                        return;
+                    }
+                }
+            }
+        }
         for t in 0..NT {
             let c = fixed_cap(t).unwrap_or(320);
             for kk in 0..=c {
@@ -185,8 +226,8 @@ impl Property for C14 {
                 }
                 for a in vals {
                     let digits = (a.significant().max(1) + 3) / 4;
-                    // beyond 400 bits: minimal set; decimal only for every 16th k (60 ms per call at 1280 bits)
-                    let width = if a.len() > 400 { if kk % 16 == 0 { usize::MAX } else { usize::MAX - 1 } } else { digits + 1 };
+                    // beyond 400 bits: minimal set; decimal only for every 256th k (about 0.2 s per call at 2560 bits)
+                    let width = if a.len() > 400 { if kk % 256 == 0 { usize::MAX } else { usize::MAX - 1 } } else { digits + 1 };
                     if !f(C14Case { a: Operand::canon(t, a), width }) {
                         return;
                     }
